@@ -144,6 +144,7 @@ func init() {
 }
 
 func runC05(c *eng.Ctx) {
+	BuildDoors = true // Build / BuildWithContext / BuildWithOptions in turn (a function of the spec)
 	cr := &caseRunner{c: c, prop: "C05"}
 	runC05Graph(c, cr)
 	RunInitializerCycles(c, cr.next)
